@@ -57,6 +57,7 @@ def compare(case, impl, model):
 
 
 def outcome(case, obs):
+    if not isinstance(obs, dict) or "outcome" not in obs: return case.get("op", "?")
     return case.get("mode", "?") + "/" + obs["outcome"][0]
 
 
